@@ -133,7 +133,15 @@ def runC04 (fields : List String) (obs : String) : String × String × String :=
           if label == "rowcol" then
             -- a whole row or column from a vector: the reference result, or (for element kinds and storage
             -- forms without such a kernel) a clean rejection, which is finding C04-D7
-            (if obs == unchanged then unchanged else spec, verdict, if obs == unchanged then "C04-D7" else "-")
+            (if obs == unchanged then (unchanged, verdict, "C04-D7")
+             else if specM.isNone then
+               -- the reference rejects (an element does not fit the kind, a wrong shape): the statement must be an
+               -- error; cells written before the failing one are the documented non-atomic behaviour (C04-D4)
+               let okBehaviour := match parseAfter k obs with
+                 | some (_, after) => onlyAddressedChanged f m after (lenientTargets m s1 (some s2)) src
+                 | none => false
+               (if okBehaviour then obs else seqModel, verdict, if okBehaviour then "C04-D4" else "-")
+             else (spec, verdict, "-"))
           else
           if label == "unsupported" then (unchanged, verdict, "C04-D7")
           else if label == "deviant" then
